@@ -6,7 +6,7 @@ build directory.  A changed .cpp removes its object file, a changed header / cma
 removes all object files, then ninja is run; so an edit that preserved mtimes is still
 picked up.  Nothing under /tmp is needed.
 """
-import hashlib, json, os, shutil, subprocess, sys, time
+import hashlib, json, os, shutil, subprocess, sys, threading, time
 from concurrent.futures import ThreadPoolExecutor
 
 VERIF = os.path.dirname(os.path.dirname(os.path.abspath(__file__)))
@@ -172,6 +172,51 @@ def harness_headers_hash():
     return h.hexdigest()
 
 
+# one pool of compiler slots for the whole process (flavours are built concurrently), and no new compiler is started while the machine is
+# short of memory: an ASan compile of one of the Eigen-heavy drivers needs 1.5-2.5 GB
+_CC_SLOTS = threading.BoundedSemaphore(int(os.environ.get("VERIF_JOBS", "16")))
+
+
+def _mem_available_gb():
+    try:
+        for line in open("/proc/meminfo"):
+            if line.startswith("MemAvailable:"):
+                return int(line.split()[1]) / 1048576.0
+    except Exception:
+        pass
+    return 1e9
+
+
+def _wait_for_memory(need_gb=4.0, max_wait=900):
+    t0 = time.time()
+    while _mem_available_gb() < need_gb and time.time() - t0 < max_wait:
+        time.sleep(3.0)
+
+
+class _global_cc_slot(object):
+    """One of N machine-wide compiler slots (lock files shared by every verif process on the machine, whichever copy of /verif it runs from):
+    several checks building at once (seeded-break runs, a development copy) must not start 60 compilers of 2.4 GB each."""
+    N = max(4, min(int(os.environ.get("VERIF_JOBS", "16")), 16))
+    DIR = "/dev/shm/verif-ccslots"
+
+    def __enter__(self):
+        import fcntl
+        os.makedirs(self.DIR, exist_ok=True)
+        while True:
+            for i in range(self.N):
+                f = open(os.path.join(self.DIR, "slot%d" % i), "w")
+                try:
+                    fcntl.flock(f, fcntl.LOCK_EX | fcntl.LOCK_NB)
+                    self.f = f
+                    return self
+                except OSError:
+                    f.close()
+            time.sleep(0.5)
+
+    def __exit__(self, *a):
+        self.f.close()
+
+
 def build_harness(flavour):
     """Compile and link the harness binary `vh` against the flavour's library. Returns path to vh."""
     spec = FLAVOURS[flavour]
@@ -207,7 +252,9 @@ def build_harness(flavour):
 
     def cc(job):
         s, o, key = job
-        rc, out, dt = run([spec["cxx"]] + flags + ["-c", s, "-o", o], logfile=logfile)
+        with _CC_SLOTS, _global_cc_slot():
+            _wait_for_memory()
+            rc, out, dt = run([spec["cxx"]] + flags + ["-c", s, "-o", o], logfile=logfile)
         return rc, out, job
 
     failed = []
